@@ -105,6 +105,8 @@ def region_ok(it, s, ptr, ln, base, total):
         return (gc <= 0), 'region end exceeds the buffer by %d' % gc
     # substitute concrete values known from constraints (== c)
     def concrete(tk):
+        if tk[0] == 'int':
+            return tk[1]
         k = tk[1] if tk[0] == 'term' else tk
         for op, c in s.cons.get(k, ()):
             if op == '==':
@@ -112,6 +114,25 @@ def region_ok(it, s, ptr, ln, base, total):
         d = s.dom.get(k)
         if d and len(d) == 1:
             return d[0]
+        # an arithmetic term over values the path has pinned (sig_len / 2 where sig_len == 64 on this path)
+        if isinstance(k, tuple) and len(k) == 3 and k[0] in ('+', '-', '*', '/', '>>', '<<', '&') and \
+                isinstance(k[1], tuple) and isinstance(k[2], tuple):
+            a, b = concrete(k[1]), concrete(k[2])
+            if a is not None and b is not None and a >= 0 and b >= 0:
+                if k[0] == '+':
+                    return a + b
+                if k[0] == '-':
+                    return a - b
+                if k[0] == '*':
+                    return a * b
+                if k[0] == '/':
+                    return a // b if b else None
+                if k[0] == '>>':
+                    return a >> b
+                if k[0] == '<<':
+                    return a << b
+                if k[0] == '&':
+                    return a & b
         return None
     g2 = {}
     for t, c in g.items():
